@@ -127,13 +127,15 @@ def _short(e):
 
 
 FAMILIES = {
-    "text": ("Trace_TextCodec", ["P:C07"], 300),
-    "fold": ("Trace_Folding", ["P:C06"], 500),
-    "parts": ("Trace_ContentLine", ["P:C01", "P:C05", "P:C08"], 500),
-    "join": ("Trace_ContentLine", ["P:C01", "P:C05", "P:C08"], 500),
-    "cdict": ("Trace_CaselessMap", ["P:C17"], 2000),
-    "lines": ("Trace_ParserLines", ["P:C04"], 2000),
-    "values": ("Trace_ValueCodecs", ["P:C03"], 500),
+    # minimum event counts are a vacuity guard only (about a sixth of what the unchanged tree yields): a change to the
+    # library may legitimately alter how often a function is called
+    "text": ("Trace_TextCodec", ["P:C07"], 100),
+    "fold": ("Trace_Folding", ["P:C06"], 150),
+    "parts": ("Trace_ContentLine", ["P:C01", "P:C05", "P:C08"], 150),
+    "join": ("Trace_ContentLine", ["P:C01", "P:C05", "P:C08"], 150),
+    "cdict": ("Trace_CaselessMap", ["P:C17"], 1000),
+    "lines": ("Trace_ParserLines", ["P:C04"], 700),
+    "values": ("Trace_ValueCodecs", ["P:C03"], 150),
 }
 
 def step(ctx: Ctx, family: str, prefixes=None, case_of=None):
